@@ -144,6 +144,7 @@ double SimBackend::ConTag(int group, int idx) {
     case 1: return -t;
     case 2: return t / 100000.0;
     case 3: return (idx & 1) ? 0.0 : -t;
+    case 4: return 0.0;          // no binding row at all: every dual exactly zero
     default: return t;
   }
 }
